@@ -290,6 +290,47 @@ func (w *verifC39PathWorld) teardown() {
 	w.pool.Close()
 }
 
+// Number the handlers / done channels that are new in the current list (no waiting: also used between
+// the two halves of a back-to-back op).
+func verifC39Register(advanceIDs, advanceEpochs bool) ([]defs.APIForwardDest, []*forward.DestHandler, string) {
+	m := verifC39M
+	items := verifC39List()
+	var hs []*forward.DestHandler
+	if m != nil {
+		hs = verifC39Handlers(m)
+	}
+	if len(hs) != len(items) {
+		hs = nil
+	}
+	for i, it := range items {
+		if hs != nil && hs[i].ID() != it.ID {
+			return nil, nil, "apilist-item-differs"
+		}
+		if _, ok := verifC39IDs[it.ID]; !ok {
+			verifC39IDs[it.ID] = verifC39IDBase + i
+			verifC39Seen = append(verifC39Seen, it.ID)
+			if hs != nil {
+				verifC39Ptr[it.ID] = hs[i]
+			}
+		}
+		if hs != nil {
+			if d, ok := verifC39Done(hs[i]); ok && d != nil {
+				if _, ok2 := verifC39Epochs[d]; !ok2 {
+					verifC39Epochs[d] = verifC39EpBase + i
+				}
+			}
+		}
+	}
+	if advanceIDs {
+		verifC39IDBase += len(items)
+	}
+	if advanceEpochs {
+		verifC39EpBase += len(items)
+	}
+
+	return items, hs, ""
+}
+
 // First-seen handlers/channels get the number base+index (the model numbers them the same way: the
 // object created for list index i by an operation is nextId+i / nextEpoch+i).
 func verifC39Observe(advanceIDs, advanceEpochs bool) string {
@@ -312,38 +353,9 @@ func verifC39Observe(advanceIDs, advanceEpochs bool) string {
 		time.Sleep(200 * time.Microsecond)
 	}
 
-	items := verifC39List()
-	var hs []*forward.DestHandler
-	if m != nil {
-		hs = verifC39Handlers(m)
-	}
-	if len(hs) != len(items) {
-		hs = nil
-	}
-	for i, it := range items {
-		if hs != nil && hs[i].ID() != it.ID {
-			return "apilist-item-differs"
-		}
-		if _, ok := verifC39IDs[it.ID]; !ok {
-			verifC39IDs[it.ID] = verifC39IDBase + i
-			verifC39Seen = append(verifC39Seen, it.ID)
-			if hs != nil {
-				verifC39Ptr[it.ID] = hs[i]
-			}
-		}
-		if hs != nil {
-			if d, ok := verifC39Done(hs[i]); ok && d != nil {
-				if _, ok2 := verifC39Epochs[d]; !ok2 {
-					verifC39Epochs[d] = verifC39EpBase + i
-				}
-			}
-		}
-	}
-	if advanceIDs {
-		verifC39IDBase += len(items)
-	}
-	if advanceEpochs {
-		verifC39EpBase += len(items)
+	items, hs, bad := verifC39Register(advanceIDs, advanceEpochs)
+	if bad != "" {
+		return bad
 	}
 
 	current := map[uuid.UUID]bool{}
@@ -548,6 +560,68 @@ func verifC39Exec(op string) string {
 			return r
 		}
 		return verifC39Observe(true, wasStarted)
+
+	case "start+stop", "start+reload", "reload+reload", "reload+stop":
+		// Two manager calls back to back, as the path goroutine issues them when nothing blocks in
+		// between (sub-stream initialisation failing right after setAvailable, a publisher leaving at
+		// once, two hot reloads in a row): the second call runs before the goroutines launched by the
+		// first have been scheduled — pinned with GOMAXPROCS(1).  Observed after quiescence only.
+		if verifC39Dead {
+			return "dead"
+		}
+		if pathLevel {
+			return "bad-op"
+		}
+		m := verifC39M
+		var first, second func()
+		adv1IDs, adv1Ep, adv2IDs, adv2Ep := false, false, false, false
+		was := verifC39Avail
+		switch f[0] {
+		case "start+stop":
+			strm := verifC39NewStream()
+			verifC39Streams[strm] = verifutil.Atoi(f[1])
+			first, adv1Ep = func() { m.Start(strm) }, true
+			second = m.Stop
+			verifC39Avail = false
+		case "start+reload":
+			strm := verifC39NewStream()
+			verifC39Streams[strm] = verifutil.Atoi(f[1])
+			fw := verifC39ParseConfs(f[2:])
+			first, adv1Ep = func() { m.Start(strm) }, true
+			second, adv2IDs, adv2Ep = func() { m.ReloadConf(fw) }, true, true
+			verifC39Avail = true
+		case "reload+reload":
+			cut := len(f)
+			for i, w := range f {
+				if w == "/" {
+					cut = i
+				}
+			}
+			fw1 := verifC39ParseConfs(f[1:cut])
+			var fw2 conf.Forward
+			if cut < len(f) {
+				fw2 = verifC39ParseConfs(f[cut+1:])
+			}
+			first, adv1IDs, adv1Ep = func() { m.ReloadConf(fw1) }, true, was
+			second, adv2IDs, adv2Ep = func() { m.ReloadConf(fw2) }, true, was
+		case "reload+stop":
+			fw := verifC39ParseConfs(f[1:])
+			first, adv1IDs, adv1Ep = func() { m.ReloadConf(fw) }, true, was
+			second = m.Stop
+			verifC39Avail = false
+		}
+		prev := runtime.GOMAXPROCS(1)
+		r := verifC39Timed(func() {
+			first()
+			verifC39Register(adv1IDs, adv1Ep)
+			second()
+		})
+		runtime.GOMAXPROCS(prev)
+		if r != "" {
+			verifC39Dead = true
+			return r
+		}
+		return verifC39Observe(adv2IDs, adv2Ep)
 	}
 	return "bad-op"
 }
@@ -661,6 +735,26 @@ func verifC39Gen(r *verifutil.Rand, i int, thorough bool) []string {
 			// A second Start without Stop is NOT generated: the orphaned goroutine later closes the
 			// new done channel a second time, which kills the whole test process (see notes/C39.md).
 			ops = append(ops, "stop")
+		case !pathLevel && !misuse && r.Chance(1, 6):
+			// back-to-back manager calls (the second before the first one's goroutines ran)
+			switch {
+			case !started && r.Bool():
+				strm++
+				ops = append(ops, fmt.Sprintf("start+stop %d", strm))
+			case !started:
+				strm++
+				cur = verifC39Mutate(r, cur, false)
+				ops = append(ops, strings.TrimSpace(fmt.Sprintf("start+reload %d ", strm)+strings.Join(cur, " ")))
+				started = true
+			case r.Bool():
+				a := verifC39Mutate(r, cur, false)
+				cur = verifC39Mutate(r, a, false)
+				ops = append(ops, strings.TrimSpace("reload+reload "+strings.Join(a, " ")+" / "+strings.Join(cur, " ")))
+			default:
+				cur = verifC39Mutate(r, cur, false)
+				ops = append(ops, strings.TrimSpace("reload+stop "+strings.Join(cur, " ")))
+				started = false
+			}
 		case c < 4:
 			if started {
 				ops = append(ops, "stop")
